@@ -344,12 +344,16 @@ def subchecks(tier, seed):
     def sw_cases():
         for seed in seeds_:
             for D in Ds:
-                for F in Fs:
+                for F in Fs + (17, 24, 31):
                     for sk in steers:
                         for nk in noises:
                             for sigma in (1e-3, 1.0, 1e3):
                                 for ref in ('each', 'auto'):
                                     for mu in (0.0, 0.5, 1.0, 100.0):
+                                        if F in (17, 24, 31) and F not in Fs and (
+                                                ref != 'auto' or sk != 'generic' or sigma != 1.0 or D not in (2, 5)
+                                                or mu not in (0.0, 1.0)):
+                                            continue      # bin counts between 16 and 32: automatic reference only
                                         yield (D, F, sk, nk, sigma, ref, mu, 'C', seed)
                                         if D == 3 and sk == 'generic' and nk in ('1000.0', 'sinc_real') and sigma == 1.0:
                                             for lay in A.LAYOUTS[1:]:
